@@ -107,7 +107,9 @@ func genScenario(t *rapid.T) scenario {
 		Peer:   rapid.SampledFrom(peers).Draw(t, "peer"),
 		Method: rapid.SampledFrom([]string{"GET", "POST"}).Draw(t, "method"),
 		Scheme: rapid.SampledFrom([]string{"http", "https"}).Draw(t, "scheme"),
-		Host:   rapid.SampledFrom([]string{"svc.example.com", "public.example.com"}).Draw(t, "host"),
+		// (the last one: characters a Host header may carry, which mean something in the headers heimdall writes for the upstream)
+		Host: rapid.SampledFrom([]string{"svc.example.com", "public.example.com", "svc.example.com", "public.example.com",
+			"svc.example.com;proto=https,for=6.6.6.6"}).Draw(t, "host"),
 		Path:   rapid.SampledFrom([]string{"/public/x", "/public/y/z", "/other"}).Draw(t, "path"),
 		Entry:  rapid.SampledFrom([]vkit.Entry{vkit.EntryDecision, vkit.EntryProxy}).Draw(t, "entry"),
 		Query:  rapid.SampledFrom([]string{"", "", "own=1"}).Draw(t, "query"),
@@ -378,6 +380,23 @@ func TestForwardedHeadersOnlyFromTrustedPeers(t *testing.T) {
 			}
 
 			if s.Entry == vkit.EntryProxy && resp.Positive {
+				// whatever the untrusted client sent: the upstream is not told about a client address the connection does not show
+				for _, up := range resp.UpRecord.Header.Values("Forwarded") {
+					for _, el := range vkit.ForwardedElements(up) {
+						if v, ok := el["for"]; ok && strings.Trim(v, "[]") != s.Peer {
+							t.Fatalf("upstream is told about the client address %q in Forwarded: %q (the peer is %s, and it is not a trusted proxy)\n%s", v, up, s.Peer, s)
+						}
+					}
+				}
+
+				for _, up := range resp.UpRecord.Header.Values("X-Forwarded-For") {
+					for _, v := range strings.Split(up, ",") {
+						if strings.TrimSpace(v) != s.Peer {
+							t.Fatalf("upstream is told about the client address %q in X-Forwarded-For: %q (the peer is %s, and it is not a trusted proxy)\n%s", v, up, s.Peer, s)
+						}
+					}
+				}
+
 				for _, name := range fwdNames {
 					for _, up := range resp.UpRecord.Header.Values(name) {
 						for _, f := range s.Forwards {
@@ -388,7 +407,7 @@ func TestForwardedHeadersOnlyFromTrustedPeers(t *testing.T) {
 							// every generated value carries an address or a name which the actual connection and request do not
 							// (but for "proto=https", which heimdall's own Forwarded element may well contain)
 							for _, marker := range []string{"6.6.6.6", "7.7.7.7", "8.8.8.8", "9.9.9.9", "2001:db8::6", "evil", "admin", "-again"} {
-								if strings.Contains(up, marker) {
+								if strings.Contains(up, marker) && !strings.Contains(s.Host, marker) {
 									t.Fatalf("upstream received the untrusted client's %s value: %q\n%s", name, up, s)
 								}
 							}
